@@ -7,8 +7,8 @@ def oracle(case, impl_lines, model_lines):
     """Implementation only.  In the panic-cycles profile every function lacks recovery, so the only
     outcomes of a read are a value or the cycle error (never too-many, never a propagated panic,
     never an unclassified panic); a read never leaves a provisional or poisoned memo behind."""
-    if "(spec evalo)" not in case:
-        return None
+    if "(spec evalo)" not in case or case.split()[1].startswith(("mixed-panic", "s-mixed-panic")):
+        return None        # mixed-panic has recovering heads: poisoned/provisional memos are legitimate there
     a = ce.split_lines(impl_lines)
     for i in sorted(a["R"]):
         r = a["R"][i]
@@ -22,7 +22,7 @@ def oracle(case, impl_lines, model_lines):
 
 def run(ctx):
     # stage 1: single thread (Cycle layer)
-    cyclecheck.run_cycle(ctx, ["panic-cycles"], n_quick=500, n_thorough=8000, oracle=oracle,
+    cyclecheck.run_cycle(ctx, ["panic-cycles", "mixed-panic"], n_quick=500, n_thorough=8000, oracle=oracle,
                          nontrivial_rule=lambda f: "cycle_panic" in f and "reexec" in f and "validate" in f,
                          thm_note=open(__file__.replace("C14.py", "notes/C14.txt")).read())
     # stage 2: cross-thread (CFetch/Proto layer, Props/C14x.v; OS-thread workload + H2 trace replay)
